@@ -78,7 +78,7 @@ def run(ctx):
     if not roots:
         ctx.fail('R19.1', 'main', 'mstsc_rs::main not found')
     allr = P.reachable_bodies(roots)
-    ctx.floor('R19.1', 'functions reachable from main', len(allr), 20)
+    ctx.floor('R19.1', 'functions reachable from main', len(allr), 8)
     for k, bd in sorted(allr.items()):
         if not k.startswith('mstsc_rs::'):
             continue
